@@ -416,7 +416,15 @@ func runSimCaseWith(t *rapid.T, o simOpts, setup func(*sim.World)) *sim.World {
 				preset := rapid.SampledFrom(nvPresets).Draw(t, "tpl-preset")
 				w.Apply(sim.Action{K: "dropheld"})
 				w.Apply(sim.Action{K: "release"})
-				w.Apply(sim.Action{K: "byz", N: 60, Byz: &sim.ByzSpec{Strat: "nv", As: nl, To: full, H: 1, V: view, P: append([]int{}, preset...), Tailor: rapid.IntRange(0, 2).Draw(t, "tpl-tailor") == 0}})
+				if preset[3] == 5 {
+					some := uint16(rapid.IntRange(1, int(full)).Draw(t, "tpl-other-block-to"))
+					good := append([]int{}, preset...)
+					good[3] = 0
+					w.Apply(sim.Action{K: "byz", Byz: &sim.ByzSpec{Strat: "nv", As: nl, To: some, H: 1, V: view, P: append([]int{}, preset...)}})
+					w.Apply(sim.Action{K: "byz", N: 60, Byz: &sim.ByzSpec{Strat: "nv", As: nl, To: full &^ some, H: 1, V: view, P: good}})
+				} else {
+					w.Apply(sim.Action{K: "byz", N: 60, Byz: &sim.ByzSpec{Strat: "nv", As: nl, To: full, H: 1, V: view, P: append([]int{}, preset...), Tailor: rapid.IntRange(0, 2).Draw(t, "tpl-tailor") == 0}})
+				}
 				w.Apply(sim.Action{K: "byz", N: 100, Byz: &sim.ByzSpec{Strat: "support", As: nl, To: full, H: 1, V: view, P: []int{0, 0}}})
 				break
 			}
